@@ -9,13 +9,19 @@ ROOT="$(cd "$(dirname "${BASH_SOURCE[0]}")" && pwd)"
 SRC="/tmp/seed-$P/out/$K"
 DST="$ROOT/seeded/$P-$K"
 export GOFLAGS=-mod=mod GOPROXY=off GOSUMDB=off GOTOOLCHAIN=local
-[ -f "$SRC/patch.diff" ] || { echo "SEED $P-$K: no patch"; exit 3; }
-mkdir -p "$DST"; cp "$SRC/patch.diff" "$DST/"; cp "$SRC/notes.md" "$DST/" 2>/dev/null
-[ -f "$SRC/demo_test.go" ] && cp "$SRC/demo_test.go" "$DST/demo_test.go.txt"
-[ -d "$SRC/demo" ] && { mkdir -p "$DST/demo"; cp "$SRC/demo/main.go" "$DST/demo/main.go.txt"; }
+if [ -f "$SRC/patch.diff" ]; then
+  mkdir -p "$DST"; cp "$SRC/patch.diff" "$DST/"; cp "$SRC/notes.md" "$DST/" 2>/dev/null
+  [ -f "$SRC/demo_test.go" ] && cp "$SRC/demo_test.go" "$DST/demo_test.go.txt"
+  [ -d "$SRC/demo" ] && { mkdir -p "$DST/demo"; cp "$SRC/demo/main.go" "$DST/demo/main.go.txt"; }
+fi
+# from here on only the stored copy under /verif/seeded is used
+[ -f "$DST/patch.diff" ] || { echo "SEED $P-$K: no patch"; exit 3; }
+SRC="$(mktemp -d /tmp/scsrc.XXXXXX)"; cp "$DST/patch.diff" "$SRC/"
+[ -f "$DST/demo_test.go.txt" ] && cp "$DST/demo_test.go.txt" "$SRC/demo_test.go"
+[ -f "$DST/demo/main.go.txt" ] && { mkdir -p "$SRC/demo"; cp "$DST/demo/main.go.txt" "$SRC/demo/main.go"; }
 S="$(mktemp -d /tmp/sc.XXXXXX)/otto"; mkdir -p "$S"; rsync -a --exclude .git /repo/ "$S/"
 H=$(printf '%s' "$S" | sha1sum | cut -c1-10)
-trap 'rm -rf "$(dirname "$S")" "$ROOT/build/alt-$H"' EXIT
+trap 'rm -rf "$(dirname "$S")" "$ROOT/build/alt-$H" "$SRC"' EXIT
 rundemo() { # in $S
   if [ -f "$SRC/demo_test.go" ]; then cp "$SRC/demo_test.go" "$S/zz_seeded_demo_test.go"; (cd "$S" && go test -vet=off -run TestSeeded -count=1 . >/dev/null 2>&1); rc=$?; rm -f "$S/zz_seeded_demo_test.go"; return $rc
   else mkdir -p "$S/zzdemo"; cp "$SRC/demo/main.go" "$S/zzdemo/main.go"; (cd "$S" && go run ./zzdemo >/dev/null 2>&1); rc=$?; rm -rf "$S/zzdemo"; return $rc; fi
@@ -37,6 +43,9 @@ python3 - "$DST/meta.json" "$P" "$K" "$ok" "$res" "${first:-}" <<'PY'
 import json,sys,os
 dst,p,k,ok,res,first=sys.argv[1:7]
 notes=open(os.path.join(os.path.dirname(dst),'notes.md')).read() if os.path.exists(os.path.join(os.path.dirname(dst),'notes.md')) else ''
-json.dump({"property":p,"seed":k,"confirmation":ok,"confirmed_by":"seedcheck.sh on a scratch copy of /repo: patch applies, go build, pinned suite, demo with and without the patch","checks":res.strip(),"first_violation":first,"needs_to_manifest":"see notes.md"},open(dst,'w'),indent=1)
+old=json.load(open(dst)) if os.path.exists(dst) else {}
+keep={k2:v for k2,v in old.items() if k2 in ("history","first_result")}
+if "first_result" not in keep: keep["first_result"]=old.get("checks",res.strip())
+json.dump({**keep,"property":p,"seed":k,"confirmation":ok,"confirmed_by":"seedcheck.sh on a scratch copy of /repo: patch applies, go build, pinned suite, demo with and without the patch","checks":res.strip(),"first_violation":first,"needs_to_manifest":"see notes.md"},open(dst,'w'),indent=1)
 PY
 echo "SEED $P-$K [$ok]$res"
